@@ -829,7 +829,9 @@ def routing_bits(repo, col):
         atab = {k: v for k, v in atab.items()
                 if k not in ("masked_bits", "shard_spec") and
                 "shard_spec" in norm(v)}
-        flat(expand_attrs(expand(rets[-1], ntab), atab))
+        from .core import expand_properties
+        flat(expand_properties(repo, nx.module,
+                               expand_attrs(expand(rets[-1], ntab), atab)))
         t = [norm(x) for x in terms]
         hi = [x for x in terms if isinstance(x, ast.BinOp)
               and isinstance(x.op, ast.LShift)]
